@@ -10,7 +10,7 @@ SPEC = dict(
     ],
     runs=[
         dict(pkg="./lib/hash", run="^TestVerifC13Ring", timeout=240, timeout_thorough=3000),
-        dict(pkg="./lib/hash", run="^TestVerifC13Race", race=True, timeout=240, timeout_thorough=3000),
+        dict(pkg="./lib/hash", run="^TestVerifC13(Writers)?Race", race=True, timeout=240, timeout_thorough=3000),
         dict(pkg="./lib/store/kv", run="^TestVerifC13", timeout=240, timeout_thorough=1800),
         dict(pkg="./lib/store/cache", run="^TestVerifC13", timeout=240, timeout_thorough=1800),
     ],
